@@ -920,7 +920,7 @@ func FromV3SchemaRef(schema *openapi3.SchemaRef, components *openapi3.Components
 		MaxProps:             schema.Value.MaxProps,
 		Properties:           make(openapi2.Schemas),
 		AllOf:                make(openapi2.SchemaRefs, len(schema.Value.AllOf)),
-		AdditionalProperties: schema.Value.AdditionalProperties,
+		AdditionalProperties: fromV3AdditionalProperties(schema.Value.AdditionalProperties),
 	}
 
 	if d := schema.Value.Discriminator; d != nil {
@@ -958,6 +958,27 @@ func FromV3SchemaRef(schema *openapi3.SchemaRef, components *openapi3.Components
 		Extensions: schema.Extensions,
 		Value:      v2Schema,
 	}, nil
+}
+
+func fromV3AdditionalProperties(from openapi3.AdditionalProperties) openapi3.AdditionalProperties {
+	return openapi3.AdditionalProperties{
+		Has:    from.Has,
+		Schema: convertRefsInV2SchemaRef(from.Schema),
+	}
+}
+
+func convertRefsInV2SchemaRef(from *openapi3.SchemaRef) *openapi3.SchemaRef {
+	if from == nil {
+		return nil
+	}
+	to := *from
+	to.Ref = FromV3Ref(to.Ref)
+	if to.Value != nil {
+		v := *from.Value
+		to.Value = &v
+		to.Value.AdditionalProperties = fromV3AdditionalProperties(to.Value.AdditionalProperties)
+	}
+	return &to
 }
 
 func FromV3SecurityRequirements(requirements openapi3.SecurityRequirements) openapi2.SecurityRequirements {
